@@ -117,7 +117,7 @@ def build(targets: list[str] | None = None, jobs: int = 16, timeout: int = 3000)
             src = COQ / f
             if not vo.exists() or vo.stat().st_mtime < src.stat().st_mtime:
                 failed.setdefault(f, "not built (dependency failed or timeout)")
-        if r.returncode == 0 and not failed:
+        if "Extract/Extract.v" not in failed:
             build_ocaml()
     return BuildResult(ok=(not failed), failed=failed, log=log[-20000:], wall=time.time() - t0)
 
